@@ -20,7 +20,7 @@ import json
 import os
 import re
 
-from lib import build, hrun, tlc, trace
+from lib import build, hrun, spantv, tlc, trace
 from lib.common import Broken, log
 
 LEVEL = "model_checking"
@@ -306,13 +306,17 @@ def record_and_validate(ctx, exe, known):
                 "  Samplers = {%s}\n  RemFlags = {%s} RemForms = {%s}\n  Dev = {%s} Hist = FALSE\n"
                 "INIT TInit\nNEXT TNext\nCONSTRAINT Progress\nINVARIANT Report\nPOSTCONDITION Accepted\n"
                 "CHECK_DEADLOCK FALSE\n" % (_q(ALL_S), ", ".join(map(str, ALL_F)), _q(ALL_FORMS), _q(sorted(known))))
-    res = trace.validate(ctx, "SpanIdentityTrace", cfgp, lines, chunk=60 if thorough else 40, parallel=4, tag="c05tv",
-                         timeout_s=900)
+    res = spantv.validate(ctx, "SpanIdentityTrace", cfgp, lines, chunk=60 if thorough else 40, parallel=4, tag="c05tv",
+                          timeout_s=900)
     ctx.extra["programs_validated"] = res["executions"]
     ctx.extra["program_events_validated"] = res["events"]
+    ctx.extra["trace_validation_devused"] = sorted(res["devused"])
+    for d in sorted(res["devused"]):
+        # accepted only through a listed deviation (the trace spec was given Dev = known)
+        ctx.deviation(d, "random program on the real tracer is a behaviour of SpanIdentity only with deviation %s" % d,
+                      {"mode": "record", "seed": ctx.seed, "n": n})
     for rj in res["rejected"]:
         ev, at = rj["events"], rj["at"]
-        # was it explainable through the deviation only?  (the trace spec was given Dev = known)
         ctx.violation("SpanIdentityTrace rejects a real execution at event %d: %s" % (
             at, json.dumps(ev[at]) if at < len(ev) else "?"), {"monitor": "SpanIdentityTrace", "events": ev, "at": at,
                                                              "dev": sorted(known)})
